@@ -100,6 +100,7 @@ type PathResult struct {
 	Obs          []Observation
 	PC           int
 	Bounds       map[string]string
+	Pruned       bool // ended by visited-state pruning: the native run has no such cut, not comparable
 }
 
 type workItem struct {
@@ -789,7 +790,7 @@ func (e *Engine) RunHarness(name string, keepOK int) (*HarnessReport, error) {
 						rep.Violations = append(rep.Violations, v)
 					}
 				}
-				if res.Outcome == "ok" && len(rep.OkPaths) < keepOK {
+				if res.Outcome == "ok" && !res.Pruned && len(rep.OkPaths) < keepOK {
 					rep.OkPaths = append(rep.OkPaths, res)
 				}
 				if len(rep.Samples) < 6 && (res.Outcome == "ok" || len(res.Violations) > 0) {
